@@ -2,19 +2,19 @@
 # usage: confirm_seed.sh <Cxx>   — confirms a seeded change in its scratch worktree /tmp/seed/<Cxx>/wt
 # (1) full existing suite passes with the change (demo moved aside), (2) demo fails with the change,
 # (3) demo passes without it. Writes /tmp/seed/<Cxx>/confirm.log and prints a one-line verdict.
-ID="$1"; WT=/tmp/seed/$ID/wt; OUT=/tmp/seed/$ID/out; LOG=/tmp/seed/$ID/confirm.log
+ID="$1"; SB="${SEED_BASE:-/tmp/seed}"; WT=$SB/$ID/wt; OUT=$SB/$ID/out; LOG=$SB/$ID/confirm.log
 export CARGO_TARGET_DIR=$WT/target CARGO_NET_OFFLINE=true
 cd "$WT" || exit 2
 : > "$LOG"
 DEMOS=$(git status --porcelain --untracked-files=all | awk '$1=="??"{print $2}' | grep -E '^(tests|examples)/' | grep -v '^target')
 echo "demos: $DEMOS" >> "$LOG"
-mkdir -p /tmp/seed/$ID/aside
-for d in $DEMOS; do mkdir -p /tmp/seed/$ID/aside/$(dirname $d); mv $d /tmp/seed/$ID/aside/$d; done
+mkdir -p $SB/$ID/aside
+for d in $DEMOS; do mkdir -p $SB/$ID/aside/$(dirname $d); mv $d $SB/$ID/aside/$d; done
 # patch must equal the worktree's source diff
-git diff > /tmp/seed/$ID/wt.diff
+git diff > $SB/$ID/wt.diff
 S1=FAIL
 if cargo test --workspace --no-fail-fast --offline >> "$LOG" 2>&1; then S1=PASS; fi
-for d in $DEMOS; do mv /tmp/seed/$ID/aside/$d $d; done
+for d in $DEMOS; do mv $SB/$ID/aside/$d $d; done
 run_demo() {
   local ok=0
   for d in $DEMOS; do
@@ -26,7 +26,7 @@ run_demo() {
   return $ok
 }
 S2=PASS; run_demo || S2=FAIL
-git apply -R /tmp/seed/$ID/wt.diff >> "$LOG" 2>&1
+git apply -R $SB/$ID/wt.diff >> "$LOG" 2>&1
 S3=PASS; run_demo || S3=FAIL
-git apply /tmp/seed/$ID/wt.diff >> "$LOG" 2>&1
+git apply $SB/$ID/wt.diff >> "$LOG" 2>&1
 echo "$ID suite_with_change=$S1 demo_with_change=$S2 demo_without_change=$S3"
